@@ -1795,3 +1795,65 @@ Section SchedOrder.
     run sch c st its = pre ++ ESchedule t :: post -> sched_ok pre t.
   Proof. intros st its pre t post E. exact (sf_from_spec _ [] (run_sf its st []) pre t post E). Qed.
 End SchedOrder.
+
+(* ==== the checkpoint directories: copy is a copy, delete removes exactly one ================= *)
+Lemma fs_get_del f i k : fs_get (fs_del f i) k = if Z.eqb k i then None else fs_get f k.
+Proof.
+  induction f as [|[j c] f IH]; simpl; [now destruct (Z.eqb k i)|].
+  destruct (Z.eqb j i) eqn:Eji; simpl.
+  - rewrite IH. destruct (Z.eqb k i) eqn:Eki; [reflexivity|].
+    destruct (Z.eqb j k) eqn:Ejk; [|reflexivity]. apply Z.eqb_eq in Eji, Ejk. subst. rewrite Z.eqb_refl in Eki. discriminate.
+  - destruct (Z.eqb j k) eqn:Ejk.
+    + apply Z.eqb_eq in Ejk. subst k. now rewrite Eji.
+    + exact IH.
+Qed.
+
+Lemma fs_get_set f i c k : fs_get (fs_set f i c) k = if Z.eqb k i then Some c else fs_get f k.
+Proof.
+  unfold fs_set. simpl. rewrite fs_get_del. rewrite (Z.eqb_sym i k). now destruct (Z.eqb k i).
+Qed.
+
+Theorem fs_copy_is_copy f src tgt f' : fs_step f (FsCopy src tgt) = Some f' ->
+  exists c, fs_get f src = Some c /\ fs_get f tgt = None /\
+            fs_get f' src = Some c /\ fs_get f' tgt = Some c /\
+            forall k, k <> tgt -> fs_get f' k = fs_get f k.
+Proof.
+  simpl. destruct (fs_get f src) as [c|] eqn:Es; [|discriminate].
+  destruct (fs_get f tgt) eqn:Et; [discriminate|]. intros H. injection H as <-.
+  exists c. split; [reflexivity|]. split; [reflexivity|].
+  assert (forall k, k <> tgt -> fs_get (fs_set f tgt c) k = fs_get f k) as K.
+  { intros k Hk. rewrite fs_get_set. apply Z.eqb_neq in Hk. now rewrite Hk. }
+  split; [|split; [|exact K]].
+  - rewrite K; [exact Es|]. intros ->. congruence.
+  - rewrite fs_get_set. now rewrite Z.eqb_refl.
+Qed.
+
+Theorem fs_delete_exact f i f' : fs_step f (FsDelete i) = Some f' ->
+  fs_get f' i = None /\ forall k, k <> i -> fs_get f' k = fs_get f k.
+Proof.
+  simpl. intros H. injection H as <-. split.
+  - rewrite fs_get_del. now rewrite Z.eqb_refl.
+  - intros k Hk. rewrite fs_get_del. apply Z.eqb_neq in Hk. now rewrite Hk.
+Qed.
+
+(* a trial that has reported and whose checkpoint was never deleted has its checkpoint on disk *)
+Lemma has_ckpt_snoc pre e j : has_ckpt (pre ++ [e]) j = ck_step (has_ckpt pre) e j.
+Proof. unfold has_ckpt. rewrite fold_left_app. reflexivity. Qed.
+
+Theorem reported_not_deleted_on_disk : forall pre j d,
+  In (EDecision j d) pre -> (forall w, ~ In (EDelete j w) pre) ->
+  (forall s, ~ In (ECopy s j) pre) -> has_ckpt pre j = true.
+Proof.
+  induction pre as [|e pre IH] using rev_ind; intros j d Hin Hnd Hnc; [destruct Hin|].
+  rewrite has_ckpt_snoc.
+  assert (forall w, ~ In (EDelete j w) pre) as Hnd' by (intros w H; apply (Hnd w); apply in_or_app; now left).
+  assert (forall s, ~ In (ECopy s j) pre) as Hnc' by (intros s H; apply (Hnc s); apply in_or_app; now left).
+  apply in_app_or in Hin as [Hin|[->|[]]].
+  - specialize (IH j d Hin Hnd' Hnc'). destruct e; simpl; try exact IH.
+    + destruct (Z.eqb j i); [reflexivity|exact IH].
+    + destruct (Z.eqb j i) eqn:E; [|exact IH]. apply Z.eqb_eq in E. subst i.
+      exfalso. apply (Hnd w). apply in_or_app. right. now left.
+    + destruct (Z.eqb j tgt) eqn:E; [|exact IH]. apply Z.eqb_eq in E. subst tgt.
+      exfalso. apply (Hnc src). apply in_or_app. right. now left.
+  - simpl. now rewrite Z.eqb_refl.
+Qed.
